@@ -185,6 +185,8 @@ func c01probes() []c01probe {
 		add("C01-openapi-extension-and-tab-led-multiline-string-gen-fails", pdesign(nil, nil, &m.Method{Name: "m", Payload: rt.Obj(rt.Fld("zone", zone, false)),
 			HTTP: &m.HTTPEndpoint{Routes: route("PUT", "/m"), Headers: []m.Mapping{{Attr: "zone", Wire: "X-A"}}, Meta: [][]string{{"openapi:extension:x-ep", `{"a":1}`}}}}))
 	}
+	add("C01-method-named-like-user-type-in-its-body", pdesign([]*m.UserType{{Name: "Bag", Var: "v1", Attr: rt.Obj(rt.Fld("note", str, false))}}, nil,
+		&m.Method{Name: "bag", Payload: rt.Obj(rt.Fld("bag", m.UserRef("Bag"), false)), HTTP: &m.HTTPEndpoint{Routes: route("POST", "/bag")}}))
 	// fixed findings: the minimal designs that used to fail
 	add("C01-openapi3-streaming-endpoint-several-routes-panics", pdesign(nil, nil, &m.Method{Name: "m", Streaming: "result", Result: rt.Obj(rt.Fld("ratio", m.Prim(m.Int), false)),
 		HTTP: &m.HTTPEndpoint{Routes: []m.Route{{Verb: "GET", Path: "/m"}, {Verb: "GET", Path: "/m/alt"}}}}))
